@@ -31,10 +31,18 @@ func zzValidGroup(sch *crypto.Scheme, pfx string, n int, withKey, withSeed bool,
 			Signature: zz.Bytes(fmt.Sprintf("%s.node%d.sig", pfx, i), zz.Param("siglen", 2))}
 		g.Nodes = append(g.Nodes, &key.Node{Identity: id, Index: zz.U32(fmt.Sprintf("%s.node%d.index", pfx, i))})
 	}
-	// every member has its own index (the listing order is arbitrary)
+	// every member has its own index. The listing order is arbitrary when the group carries its genesis seed; a
+	// group WITHOUT a stored seed only exists between its construction and the first Hash() (dkg.asGroup stores
+	// Hash() as the seed at once), and Hash() sorts the members by index in place: such a group is listed in
+	// index order, as every group the system produces is. (An unsorted seedless group does not round-trip under
+	// Group.Equal, which compares members by position: encoding it sorts the original but not the listing.)
 	for i := 0; i < n; i++ {
 		for j := i + 1; j < n; j++ {
-			zz.Assume(g.Nodes[i].Index != g.Nodes[j].Index)
+			if withSeed {
+				zz.Assume(g.Nodes[i].Index != g.Nodes[j].Index)
+			} else {
+				zz.Assume(g.Nodes[i].Index < g.Nodes[j].Index)
+			}
 		}
 	}
 	thr := int(zz.U32(pfx + ".threshold"))
